@@ -33,7 +33,7 @@ ASSUMPTIONS = ["rate constant over the interval (the property's premise)", "rela
 REQUIRED = ["C06:split-invariance", "C06:same-instant-zero", "C06:earlier-time-rejected", "C06:query-changes-nothing",
             "C06:twin-query-bit-identical", "C06:positive-never-charged", "C06:negative-charged-at-r+m",
             "C06:margin-earns-nothing", "C06:rebalance-reports-interest", "C06:failed-rebalance-accrues-once"]
-REQUIRED_CATS = ["base-currency-not-the-default", "refused-request-then-accrual", "query-beyond-next-accrual", "rate-quote-type:f32", "rate-quote-type:int", "rate-quoted-two-sided", "sub-second-spacing", "tz-aware-changing-offsets"]
+REQUIRED_CATS = ["process-in-a-dst-time-zone", "base-currency-not-the-default", "refused-request-then-accrual", "query-beyond-next-accrual", "rate-quote-type:f32", "rate-quote-type:int", "rate-quoted-two-sided", "sub-second-spacing", "tz-aware-changing-offsets"]
 REQUIRED_HITS = ["Broker.accrued_interest"]
 TECHNIQUE = "runtime monitoring: closed-form reference model (60-digit decimal) and twin runs over generated accrual schedules"
 LEVEL_TEXT = ("Exploration. The real Broker.accrued_interest / Broker.rebalance are driven through thousands of generated accrual "
@@ -67,11 +67,24 @@ def ref(bal, rate, markup, secs):
 
 
 def case(ctx, i, tier):
+    if i % 7 == 3:
+        # the process runs in a local time zone with daylight saving; the (naive) accrual instants straddle a switch
+        from vf import core
+        with core.local_timezone(ctx.rng.choice(["EST5EDT,M3.2.0,M11.1.0", "CET-1CEST,M3.5.0,M10.5.0/3"])):
+            ctx.cat("process-in-a-dst-time-zone")
+            return _case(ctx, i, tier, dst=True)
+    return _case(ctx, i, tier)
+
+
+def _case(ctx, i, tier, dst=False):
     rng = ctx.rng
     CUR[0] = Cash() if rng.random() < 0.75 else Cash(rng.choice(["EUR", "GBP"]))
     if CUR[0] != Cash():
         ctx.cat("base-currency-not-the-default")
     t0 = datetime(rng.choice([1999, 2000, 2019, 2020, 2023, 2024]), rng.choice([1, 2, 3, 7, 12]), rng.choice([1, 15, 28]))
+    if dst:
+        # a day or two before a spring-forward / fall-back night of 2019 (US: 10 Mar, 3 Nov; EU: 31 Mar, 27 Oct)
+        t0 = rng.choice([datetime(2019, 3, 9, 20), datetime(2019, 11, 2, 20), datetime(2019, 3, 30, 20), datetime(2019, 10, 26, 20)])
     rate = rng.choice([rng.uniform(-0.05, 0.2499), rng.uniform(0, 0.05), 0.0, 0.2499])
     markup = rng.choice([0, 0, rng.uniform(0, 0.1), 0.005])
     if 1 + rate - markup <= 0.01:
@@ -91,6 +104,8 @@ def case(ctx, i, tier):
         ctx.cat("rate-quote-type:" + rq)
     mode = rng.choice(["plain", "plain", "negative-by-leverage", "margined", "plain-negdeposit"])
     total = rng.choice([1, 60, 86400, YEAR, rng.randint(1, 40 * YEAR), rng.randint(1, 10 * 86400)])
+    if dst:
+        total = rng.choice([6 * 3600, 2 * 86400, 5 * 86400])
     k = min(rng.choice([1, 1, 2, 5, 50, 500]), total)
     cuts = [0] + (sorted(rng.sample(range(1, total), k - 1)) if k > 1 else []) + [total]
     if rng.random() < 0.3:
@@ -148,6 +163,9 @@ def case(ctx, i, tier):
         t = t0 + timedelta(microseconds=cu_)
         if aware:
             t = t.astimezone(rng.choice(zones))
+        elif dst and rng.random() < 0.4:
+            import pandas as pd
+            t = pd.Timestamp(t)          # (naive datetime and naive pandas Timestamp mixed between consecutive calls)
         a_, c_ = Decimal(au_) / 10 ** 6, Decimal(cu_) / 10 ** 6
         if j_ + 2 < len(cuts_us) and rng.random() < 0.25:
             # a look-ahead query ("what would I have earned by then?") for an instant BEYOND the next accrual: it
